@@ -603,7 +603,7 @@ func c08Families(tier string) []explore.Family {
 			o, ob := Render(c08.eng, src, c08Bind()), Render(c08.eng, base, c08Bind())
 			r.Class("spelling/" + o.Class())
 			if ob.Err != nil || ob.Panic != nil {
-				panic("harness: base spelling fails: " + base + ": " + ob.String())
+				panic(explore.BaselineFailure{Msg: "harness: base spelling fails: " + base + ": " + ob.String()})
 			}
 			if o.Panic != nil || o.Err != nil || o.Out != ob.Out {
 				r.Violation("whitespace-changes-meaning", map[string]any{"template": src, "canonical": base}, ob.String(), o.String())
